@@ -29,10 +29,24 @@ type Mut struct {
 	Func    string `json:"func"`
 }
 
+// families of sibling constants (per package qualifier)
+var families = map[string][][]string{
+	"task":    {{"Init", "Enqueued", "Claimed", "Completed", "Timedout"}},
+	"promise": {{"Pending", "Resolved", "Rejected", "Canceled", "Timedout"}},
+	"message": {{"Invoke", "Resume", "Notify"}},
+	"t_api": {{"StatusOK", "StatusCreated", "StatusNoContent"},
+		{"StatusPromiseAlreadyResolved", "StatusPromiseAlreadyRejected", "StatusPromiseAlreadyCanceled", "StatusPromiseAlreadyTimedout"},
+		{"StatusPromiseNotFound", "StatusScheduleNotFound", "StatusLockNotFound", "StatusTaskNotFound"},
+		{"StatusTaskAlreadyClaimed", "StatusTaskAlreadyCompleted", "StatusTaskInvalidCounter", "StatusTaskInvalidState"},
+		{"StatusPromiseAlreadyExists", "StatusScheduleAlreadyExists", "StatusLockAlreadyAcquired"}},
+	"codes": {{"InvalidArgument", "PermissionDenied", "NotFound", "AlreadyExists", "Internal", "Unavailable"}},
+}
+
 var skipCallPrefixes = []string{"slog.", "log.", "fmt.Print", "metrics.", "util.Assert", "counter.", "w.metrics", "s.metrics", "a.metrics"}
 
 func main() {
 	repo := flag.String("repo", "/repo", "")
+	set2 := flag.Bool("set2", false, "second operator set: sibling constants, swapped call arguments, copied field values")
 	flag.Parse()
 	globs := flag.Args()
 	var files []string
@@ -100,6 +114,53 @@ func main() {
 						if strings.HasSuffix(ft, ".Inc") || strings.HasSuffix(ft, ".Dec") || strings.HasSuffix(ft, ".Observe") || strings.Contains(ft, "WithLabelValues") {
 							return false
 						}
+					}
+					if *set2 {
+						switch x := nd.(type) {
+						case *ast.SelectorExpr:
+							// sibling constant of the same family
+							if pid, ok := x.X.(*ast.Ident); ok {
+								fam := families[pid.Name]
+								for _, group := range fam {
+									for i, nm := range group {
+										if nm == x.Sel.Name {
+											alt := group[(i+1)%len(group)]
+											emit("const "+nm+"→"+alt, fn, x.Sel.Pos(), x.Sel.End(), alt)
+										}
+									}
+								}
+							}
+						case *ast.CallExpr:
+							ft := text(x.Fun.Pos(), x.Fun.End())
+							if ft == "append" || ft == "make" || ft == "len" {
+								return true
+							}
+							for i := 0; i+1 < len(x.Args); i++ {
+								a, b := x.Args[i], x.Args[i+1]
+								if _, isLit := a.(*ast.BasicLit); isLit {
+									continue
+								}
+								if _, isLit := b.(*ast.BasicLit); isLit {
+									continue
+								}
+								emit("swap args", fn, a.Pos(), b.End(), text(b.Pos(), b.End())+text(a.End(), b.Pos())+text(a.Pos(), a.End()))
+							}
+						case *ast.CompositeLit:
+							var kvs []*ast.KeyValueExpr
+							for _, el := range x.Elts {
+								if kv, ok := el.(*ast.KeyValueExpr); ok {
+									if _, isId := kv.Key.(*ast.Ident); isId {
+										kvs = append(kvs, kv)
+									}
+								}
+							}
+							for i := 0; i+1 < len(kvs); i++ {
+								a, b := kvs[i], kvs[i+1]
+								emit("copy value "+text(b.Key.Pos(), b.Key.End())+"→"+text(a.Key.Pos(), a.Key.End()), fn, a.Value.Pos(), a.Value.End(), text(b.Value.Pos(), b.Value.End()))
+								emit("copy value "+text(a.Key.Pos(), a.Key.End())+"→"+text(b.Key.Pos(), b.Key.End()), fn, b.Value.Pos(), b.Value.End(), text(a.Value.Pos(), a.Value.End()))
+							}
+						}
+						return true
 					}
 					switch x := nd.(type) {
 					case *ast.BinaryExpr:
